@@ -705,7 +705,35 @@ def rule_const(R):
     R.ob("const/schedule-after-connack", okn, "the ping schedule is (re)started after the effective keep-alive is known", where=hb.span)
 
 
+def rule_inbound_first(R):
+    """a PINGRESP that was received in time must not lead to a disconnect: in the drive loop a packet that is already
+    complete in the reader is handled (it may be the PINGRESP that clears the deadline) *before* `service()` tests that
+    deadline -- every call of `service` is reached only over the "no packet available" edge"""
+    f = R.f
+    cm = roles.conn_methods(f)
+    b, code = cm["drive_packet"]
+    R.touch(code)
+    sv = cm.get("service")
+    calls = outq.calls_to(f, code, sv[0]) if sv else []
+    edges = []
+    for bb in code.switches:
+        if bb not in code.reachable:
+            continue
+        si = code.switch_info(bb)
+        sj = peel(si["subject"])
+        neg = False
+        if sj[0] == "un" and sj[1] == "Not":
+            sj, neg = peel(sj[2]), True
+        if is_call(sj, "packet_available") and si["edges"].get(neg) is not None:
+            edges.append((bb, si["edges"][neg]))       # the edge on which no complete packet is waiting
+    ok = bool(calls) and bool(edges) and all(code.must_pass([0], [c.bb], via_edges=edges)[0] for c in calls)
+    R.ob("check/inbound-before-expiry", ok,
+         "Connection::drive_packet calls service() (which tests the PINGRESP deadline first) only when no complete inbound "
+         "packet is waiting in the reader (%d calls, %d tests)" % (len(calls), len(edges)), where=b.span)
+
+
 def run(R):
+    R.rule("inbound-first", rule_inbound_first)
     R.rule("who", rule_who)
     R.rule("due", rule_due)
     R.rule("refresh", rule_refresh)
